@@ -865,6 +865,17 @@ def pline(pat, tt, word=None):
     return s
 
 
+# longer patterns of the shapes users write (a slot, the separator of its own list syntax, the same slot again, then a closing literal): the realistic
+# ambiguity class of this language, plus deterministic neighbours.  Not in the expectation file: their verdict is judged by the solver only
+# (accepted => no witness of non-determinism inside the bound and the driver recognises exactly the language; rejected => witness searched).
+EXTRA_PATTERNS = [
+    ('ID', 'PROG_TEMP', 'PROGSEP', 'PROG_TEMP', 'END'), ('PROG_TEMP', 'PROGSEP', 'PROG_TEMP', 'END'),
+    ('ID_TEMP', 'PAREN_OPEN', 'ARGS_TEMP', 'ARGSEP', 'ARGS_TEMP', 'PAREN_CLOSE'), ('ARGS_TEMP', 'ARGSEP', 'ARGS_TEMP', 'PAREN_CLOSE'),
+    ('VALUE_TEMP', 'NV_ID', 'VALUE_TEMP'), ('ID_TEMP', 'PAREN_OPEN', 'ARGS_TEMP', 'PAREN_CLOSE'), ('ID', 'ID_TEMP', 'DO', 'PROG_TEMP', 'END'),
+    ('ID', 'VALUE_TEMP', 'DO', 'PROG_TEMP', 'ID', 'PROG_TEMP', 'END'),
+]
+
+
 def patterns(maxlen):
     al = SLOTS + LITERALS
     return [tuple(p) for n in range(1, maxlen + 1) for p in itertools.product(al, repeat=n)]
@@ -1140,6 +1151,7 @@ def c12_obligations(prop, tier, seed, wd, out):
         rnd = random.Random(seed); p3 = [p for p in patterns(3) if len(p) == 3]
         sample3 = rnd.sample(p3, int(os.environ.get('VERIF_C12_LEN3', '420')))
     all3 = patterns(3) if (tier != 'quick' or not os.path.exists(C12_SPEC)) else pats
+    all3 = list(all3) + [p for p in EXTRA_PATTERNS if p not in set(all3)]
     dumpsP = dict(zip(all3, native_dump(wd, [pline(p, tt) for p in all3], workers=WORKERS, chunk=60)))
     verdict = {}
     for p, d in dumpsP.items():
@@ -1159,6 +1171,7 @@ def c12_obligations(prop, tier, seed, wd, out):
         rp = write_replay(prop, 'scn', {'kind': 'scenario', 'statement': b, 'errors': sraw})
         out.violations.append({'property': prop, 'job': 'scenario', 'assertion': 'C12: ' + b, 'replay': rp, 'confirmed': True, 'cex': {}})
     family = [p for p in pats + sample3 if p in verdict]
+    family += [p for p in EXTRA_PATTERNS if p in verdict and p not in set(family)]
     # cross-check of the transcription on the tables: the transcribed grammar + pattern through LRParser<int,int> must give the detector's tables
     dumpsG = dict(zip(family, native_dump(wd, [gline(pattern_grammar(p, tt), True) for p in family], workers=WORKERS, chunk=40)))
     jobs = [ge]; info = {}
